@@ -26,18 +26,33 @@ open Matrix
 
 abbrev Mat (m n : ℕ) (K : Type) := Matrix (Fin m) (Fin n) K
 
-/-- Tabulate a matrix into arrays (evaluation sharing); semantically the identity. -/
-def force {K : Type} {m n : ℕ} (M : Mat m n K) : Mat m n K :=
+/-- A matrix as a *value*: a structure, so that computing it really runs (Lean's compiler
+eta-expands definitions of function type such as `Matrix`, which would otherwise re-evaluate the
+whole expression at every entry access). -/
+structure MatBox (m n : ℕ) (K : Type) where
+  M : Mat m n K
+
+/-- Tabulate a matrix into arrays (each entry computed exactly once) and return it as a value. -/
+def boxForce {K : Type} {m n : ℕ} (M : Mat m n K) : MatBox m n K :=
   let tbl : Array (Array K) := Array.ofFn fun i : Fin m => Array.ofFn fun j : Fin n => M i j
-  Matrix.of fun i j =>
+  ⟨Matrix.of fun i j =>
     if h : i.val < tbl.size then
       let row := tbl[i.val]
       if h2 : j.val < row.size then row[j.val] else M i j
-    else M i j
+    else M i j⟩
 
-@[simp] theorem force_eq {K : Type} {m n : ℕ} (M : Mat m n K) : force M = M := by
+@[simp] theorem boxForce_M {K : Type} {m n : ℕ} (M : Mat m n K) : (boxForce M).M = M := by
   ext i j
-  simp [force]
+  simp [boxForce]
+
+/-- Tabulated copy of a matrix (evaluation sharing); semantically the identity. -/
+@[macro_inline] def force {K : Type} {m n : ℕ} (M : Mat m n K) : Mat m n K := (boxForce M).M
+
+@[simp] theorem force_eq {K : Type} {m n : ℕ} (M : Mat m n K) : force M = M := boxForce_M M
+
+/-- Decide equality of two matrix values entrywise. -/
+@[noinline] def decEqBox {K : Type} [DecidableEq K] {m n : ℕ} (A B : MatBox m n K) : Decidable (A.M = B.M) :=
+  inferInstance
 
 /-- `sign ∈ {+1, -1}`. -/
 inductive Sgn | pos | neg
@@ -235,6 +250,26 @@ def T : {m n : ℕ} → MExpr K m n → MExpr K n m
       | .symmetric => lowRank .symmetric s U V S Kin C
       | .posdef => lowRank .posdef s U V S Kin C
 
+/-- Right factor of the inverse of a low-rank update: `V @ S⁻¹` for the square class,
+`(S⁻¹ @ U).T = (U.T, S⁻¹)` for the symmetric classes. -/
+def lrInvRight {n k : ℕ} (kind : LRKind) (V TU : MExpr K k n) (Si : MExpr K n n) : MExpr K k n :=
+  match kind with
+  | .square => prod .plain V Si
+  | .symmetric => prod .plain TU Si
+  | .posdef => prod .plain TU Si
+
+/-- Class of a scalar multiple of a block-diagonal matrix. -/
+def bdSmulKind (sg : Sgn) : BDKind → BDKind
+  | .square => .square
+  | .symmetric => .symmetric
+  | .posdef => if sg.isPos then .posdef else .square
+
+/-- Class of a scalar multiple of a low-rank update. -/
+def lrSmulKind (sg : Sgn) : LRKind → LRKind
+  | .square => .square
+  | .symmetric => .symmetric
+  | .posdef => if sg.isPos then .posdef else .symmetric
+
 /-- `.inv` (`_construct_inv`).  Total: on objects that are not `InvertibleMatrix` the result is
 meaningless (but well-typed); see `IsInv`. -/
 def inv : {m n : ℕ} → MExpr K m n → MExpr K n m
@@ -257,11 +292,7 @@ def inv : {m n : ℕ} → MExpr K m n → MExpr K n m
   | _, _, prod pk a b => prod pk (inv b) (inv a)
   | _, _, lowRank kind s U V S Kin C =>
       -- symmetric kinds: right factor `(S⁻¹ @ U).T = (U.T, S⁻¹.T)` and `S⁻¹.T is S⁻¹`
-      lowRank kind s.flip (prod .plain (inv S) U)
-        (match kind with
-          | .square => prod .plain V (inv S)
-          | .symmetric => prod .plain (T U) (inv S)
-          | .posdef => prod .plain (T U) (inv S))
+      lowRank kind s.flip (prod .plain (inv S) U) (lrInvRight kind V (T U) (inv S))
         (inv S) (inv C) (inv Kin)
 
 /-- The scalar `sg * r²`. -/
@@ -284,20 +315,12 @@ def smul (sg : Sgn) (r : K) : {m n : ℕ} → MExpr K m n → MExpr K m n
   | _, _, eigSym pd Q ev => eigSym (pd && sg.isPos) Q (fun i => ev i * scal sg r)
   | _, _, rect A => rect (scal sg r • A)
   | _, _, blockDiag k a b =>
-      blockDiag (match k with
-          | .square => .square
-          | .symmetric => .symmetric
-          | .posdef => if sg.isPos then .posdef else .square)
-        (smul sg r a) (smul sg r b)
+      blockDiag (bdSmulKind sg k) (smul sg r a) (smul sg r b)
   | _, _, blockRow a b => blockRow (smul sg r a) (smul sg r b)
   | _, _, blockCol a b => blockCol (smul sg r a) (smul sg r b)
   | _, _, prod pk a b => prod pk (scaledId _ false (scal sg r)) (prod pk a b)
   | _, _, lowRank kind s U V S Kin C =>
-      lowRank (match kind with
-          | .square => .square
-          | .symmetric => .symmetric
-          | .posdef => if sg.isPos then .posdef else .symmetric)
-        s U V (smul sg r S) (smul sg r Kin) (smul sg r⁻¹ C)
+      lowRank (lrSmulKind sg kind) s U V (smul sg r S) (smul sg r Kin) (smul sg r⁻¹ C)
 
 /-- `_left_matrix_multiply(B)` (`self @ B` for an array `B`; vectors are one-column matrices). -/
 def leftMul : {m n : ℕ} → MExpr K m n → {p : ℕ} → Mat n p K → Mat m p K
@@ -352,8 +375,10 @@ def diagonal : {m n : ℕ} → MExpr K m n → (Fin m → K)
   | _, _, scaledOrth c Q => fun i => c * Q i i
   | _, _, blockDiag _ a b => Fin.append (diagonal a) (diagonal b)
   | _, _, lowRank _ s U V S Kin _ =>
-      fun i => diagonal S i +
-        (s.val : K) * ∑ j, (rightMul (denote U) Kin) i j * (denote (T V)) i j
+      let dS := diagonal S
+      let R := rightMul (denote U) Kin
+      let Vt := denote (T V)
+      fun i => dS i + (s.val : K) * ∑ j, R i j * Vt i j
   | _, _, triFact pd s f => diagOf (denote (triFact pd s f))
   | _, _, denseDef _ _ A _ => diagOf A
   | _, _, lu inverse A X => diagOf (if inverse then X else A)
